@@ -240,6 +240,26 @@ def run(chk):
                     files = {k: v for k, v in c[0].items()}
                     meta = dict(meta, resolve=c[2], cut=True)
             sc.add(sid, files, opts=ovs, twin=twin, meta=meta)
+        # a text that does NOT conform, with an override addressed to the offending section: the rules of C01
+        # hold whether or not an option bag travels with the section (here: a section named '*' or '+')
+        heads = [i for i, l in enumerate(t) if l.info["role"] in ("open", "empty")]
+        if heads and rng.random() < 0.5:
+            i = rng.choice(heads)
+            l = t[i]
+            ty = l.info["type"]
+            body = str(l).strip()
+            star = rng.choice(["*", "+"])
+            tail = "/>" if l.info["role"] == "empty" else ">"
+            bad = textgen.Line(str(l)[:len(str(l)) - len(str(l).lstrip())] + "<%s %s%s" % (ty, star, tail), **l.info)
+            T = rec["types"][ty]
+            keys = [c for c in T["children"] if c["kind"] in ("key", "multikey") and c["name"] != "+"]
+            if keys:
+                c = rng.choice(keys)
+                ov = "%s/%s=%s" % (rng.choice([ty, ty.upper()]), c["name"], refconv.good_values(c["dt"])[0])
+                t2 = list(t)
+                t2[i] = bad
+                sc.add(sid, {"d/main.conf": t2}, opts=[ov],
+                       meta={"nontrivial": True, "shape": "bad-name-with-override", "expect_reject": True})
     outs = sc.run_spec(chk)
     from ..core import MachineryError
     for it, o in zip(sc.items, outs):
